@@ -448,10 +448,7 @@ class Project:
                 raise LicenseConflictError(message)
             # Add the identifiers
             license_files[identifier] = path
-            if (
-                _LICENSEREF_PATTERN.match(identifier)
-                and "Unknown" not in identifier
-            ):
+            if _LICENSEREF_PATTERN.match(identifier):
                 self.license_map[identifier] = {
                     "reference": str(path),
                     "isDeprecatedLicenseId": False,
